@@ -44,9 +44,9 @@ def constOf (k : String) : Option String := (Generated.consts.find? (·.1 == k))
 the translator reads from the source on this run — `TIMEOUT` in stream.rs, and the `throttle(2 s).take(20)` retry
 streams of `ResetSequence::into_stream` and of `Feig::read_card`. -/
 theorem retry_constants_match_source :
-    constOf "TIMEOUT" = some "Duration::from_secs(60)" ∧ TIMEOUT = 60 ∧
-    constOf "RETRY[into_stream]" = some "throttle=std::time::Duration::from_secs(2) take=20" ∧
-    constOf "RETRY[read_card]" = some "throttle=Duration::from_secs(2) take=20" ∧ THROTTLE = 2 ∧ ATTEMPTS = 20 := by
+    constOf "TIMEOUT" = some "secs(60)" ∧ TIMEOUT = 60 ∧
+    constOf "RETRY[into_stream]" = some "throttle=secs(2) take=20" ∧
+    constOf "RETRY[read_card]" = some "throttle=secs(2) take=20" ∧ THROTTLE = 2 ∧ ATTEMPTS = 20 := by
   decide +kernel
 
 /-- the budgets with the constants of the source: 20 × (2 + 60 + 60) = 2440 s for ordinary exchanges. -/
